@@ -11,7 +11,7 @@ META = {
                    "abort check with the right ingredients (R2.1), the received bit is used only behind it (R2.3), absent shares are "
                    "errors (R2.4), masked inputs use the verified broadcast and conflicting masks are rejected (R2.6), and the AEAD result "
                    "of garble::decrypt is propagated as Err - not unwrapped (R-ERR.decrypt). Decides existence / placement / fail-closedness "
-                   "for every register, row, recipient and role; unforgeability of MAC and AEAD is assumed.",
+                   "for every register, row, recipient and role; unforgeability of MAC and AEAD is assumed. (R2.key) the AEAD key and nonce of a garbled row bind all four GarblingKey components: the writes into the key / nonce arrays have pairwise disjoint constant byte ranges and every field reaches one.",
     "assumptions": ["ChaCha20-Poly1305 rejects altered ciphertexts; IT-MAC forgery probability 2^-128 is not analysed"],
 }
 
@@ -59,3 +59,4 @@ def rule_decrypt_result(S, res):
             else:
                 res.bad("R-ERR.decrypt", inst, "the result of garble::decrypt is not propagated as an error", where(b, bi), key="R-ERR.decrypt|%s" % b.owner.rsplit("::", 1)[-1])
     res.floor("decrypt_call_sites", n, 1)
+    r2.rule_row_key_binding(S, res)
